@@ -3,6 +3,7 @@
 Supported subset (anything else raises Unsupported, which the harness treats as a broken tie):
   statements : docstrings, Assign / AugAssign to a local name, If/elif/else (continuation is
                duplicated into both branches), Raise (-> Err), Return, Yield of a 2-tuple,
+               `yield from <generator call>` (= the loop that re-yields its pairs),
                `for x in <list expr>: assigns; yield (a, b)`,
                `for a, b in <generator call>: yield (ea, eb)`,
                expression statements calling a configured procedure that may raise.
@@ -655,6 +656,18 @@ class Tr:
             return "(match %s with Err => Err | Ok _ => %s end)" % (t, body), bty
         if isinstance(s, ast.For) and not s.orelse:
             return self.loop(s, rest, env)
+        if isinstance(s, ast.Expr) and isinstance(s.value, ast.YieldFrom):
+            # `yield from g(..)` of a generator of pairs == `for a, b in g(..): yield a, b`
+            a, b = ast.Name(id="yf_a_", ctx=ast.Load()), ast.Name(id="yf_b_", ctx=ast.Load())
+            if "yf_a_" in env or "yf_b_" in env:
+                raise Unsupported("reserved name")
+            loop = ast.For(
+                target=ast.Tuple(elts=[ast.Name(id="yf_a_", ctx=ast.Store()),
+                                       ast.Name(id="yf_b_", ctx=ast.Store())], ctx=ast.Store()),
+                iter=s.value.value,
+                body=[ast.Expr(value=ast.Yield(value=ast.Tuple(elts=[a, b], ctx=ast.Load())))],
+                orelse=[])
+            return self.loop(loop, rest, env)
         raise Unsupported("statement " + ast.dump(s)[:120])
 
     def loop(self, s, rest, env):
